@@ -129,7 +129,11 @@ func landmarkChainHolds(ch *syntax.RequiredLandmarkChain, text []rune, p int) bo
 		if found < 0 {
 			return false
 		}
-		cur = found + adv
+		// the occurrence found is the leftmost of any alternative, not necessarily the one the match
+		// uses: the next landmark is only known to begin behind its first rune (the engine's reading
+		// since fix D46; demanding it behind the whole alternative was defect D46)
+		_ = adv
+		cur = found + 1
 	}
 	return true
 }
